@@ -152,6 +152,10 @@ fn list_sorted(p: &VfsPath) -> VfsResult<Vec<VfsPath>> {
 }
 
 fn snap_dir(p: &VfsPath, set: &HashSet<i128>, out: &mut Vec<String>, depth: usize) {
+    snap_dir_gen(true, p, set, out, depth)
+}
+
+fn snap_dir_gen(reads: bool, p: &VfsPath, set: &HashSet<i128>, out: &mut Vec<String>, depth: usize) {
     if depth > 64 {
         out.push(format!("{};err:MODEL-STUCK:U;-;-", hex(p.as_str().as_bytes())));
         return;
@@ -164,12 +168,16 @@ fn snap_dir(p: &VfsPath, set: &HashSet<i128>, out: &mut Vec<String>, depth: usiz
                 match &md {
                     Ok(m) => match m.file_type {
                         VfsFileType::File => {
-                            let bs = read_all(&c);
-                            out.push(format!("{};{};{};-", hp, res_s(&md, |m| meta_s(m, set)), read_all_s(&bs)));
+                            if reads {
+                                let bs = read_all(&c);
+                                out.push(format!("{};{};{};-", hp, res_s(&md, |m| meta_s(m, set)), read_all_s(&bs)));
+                            } else {
+                                out.push(format!("{};{};-;-", hp, res_s(&md, |m| meta_s(m, set))));
+                            }
                         }
                         VfsFileType::Directory => {
                             out.push(format!("{};{};-;-", hp, res_s(&md, |m| meta_s(m, set))));
-                            snap_dir(&c, set, out, depth + 1);
+                            snap_dir_gen(reads, &c, set, out, depth + 1);
                         }
                     },
                     Err(_) => out.push(format!("{};{};-;-", hp, res_s(&md, |m| meta_s(m, set)))),
@@ -282,6 +290,14 @@ fn run_op(c: &mut Case, idx: usize, toks: &[&str]) -> String {
             snap_dir(&root, &set, &mut out, 0);
             format!("ok:snap:{}", out.join("|"))
         }
+        ["tree", k] => {
+            let root = c.roots[k.parse::<usize>().unwrap()].clone();
+            let mut out = vec![];
+            let md = root.metadata();
+            out.push(format!("-;{};-;-", res_s(&md, |m| meta_s(m, &set))));
+            snap_dir_gen(false, &root, &set, &mut out, 0);
+            format!("ok:snap:{}", out.join("|"))
+        }
         ["createfile", p] => match c.locate(p).and_then(|p| p.create_file()) {
             Ok(h) => {
                 c.handles.insert(idx, Handle::W(h));
@@ -350,6 +366,21 @@ fn run_op(c: &mut Case, idx: usize, toks: &[&str]) -> String {
             }
             _ => "err:MODEL-STUCK:U".to_string(),
         },
+        ["xrawname", b, name] => {
+            // a directory entry whose name is arbitrary bytes (not necessarily UTF-8), made behind the crate's back
+            use std::os::unix::ffi::OsStringExt;
+            let d = c.tmpdirs[b.parse::<usize>().unwrap()].clone();
+            let f = d.join(std::ffi::OsString::from_vec(unhex(name)));
+            let _ = std::fs::write(f, b"raw");
+            "ok:unit".to_string()
+        }
+        ["xsymlink", b, name, target] => {
+            let d = c.tmpdirs[b.parse::<usize>().unwrap()].clone();
+            let n = String::from_utf8(unhex(name)).unwrap();
+            let t = String::from_utf8(unhex(target)).unwrap();
+            let _ = std::os::unix::fs::symlink(t, d.join(n));
+            "ok:unit".to_string()
+        }
         ["setfault", id, k] => {
             c.shared.lock().unwrap().fault = Some((id.parse().unwrap(), k.parse().unwrap()));
             "ok:unit".to_string()
